@@ -24,10 +24,12 @@ type faultCfg struct {
 	ByzRate     int64 // mean virtual us between byzantine messages
 	FaultSteps  int
 	Stall       float64
+	Staller     bool // every honest client prefers the action that moves no chips (bet 0, check, pass)
 }
 
 func drawFaults(r *sim.RNG, n int) *faultCfg {
 	f := &faultCfg{Byz: make([]bool, n+1), Impatient: make([]bool, n+1)}
+	f.Staller = r.Chance(0.08)
 	if r.Chance(0.2) {
 		f.None = true
 		f.FaultSteps = 0
@@ -223,6 +225,22 @@ func (h *hand) chooseAction(c *client, v *view) *msg {
 		ws[i] = weights[a]
 	}
 	op := v.allowed[h.rng.Weighted(ws)]
+	if h.fc.Staller {
+		// the stalling strategy: whatever keeps the hand going without
+		// moving a chip; termination must hold for every strategy
+		for _, pref := range []string{"bet", "check", "pass", "call", "fold", "allin"} {
+			if contains(v.allowed, pref) {
+				op = pref
+				break
+			}
+		}
+		m := &msg{actor: fmt.Sprintf("p%d", c.id), op: op, ver: v.ver}
+		if op == "bet" {
+			m.args = []int64{0}
+		}
+		h.r.res.Count("probe.staller-action", 1)
+		return m
+	}
 	m := &msg{actor: fmt.Sprintf("p%d", c.id), op: op, ver: v.ver}
 	if h.rng.Chance(0.15) {
 		m.actor = "cur" // the table acting for the current player
